@@ -91,10 +91,11 @@ GoalChecks(e, o) ==
   LET cur == Tab(e.tag_t, e.tag_d)
       res == Tab(e.res_t, e.res_d)
       Tagged(t, x) == t \in DOMAIN cur /\ cur[t] = x /\ t \in DOMAIN res /\ res[t] = x
-      puts == {"put_tag", "put_index", "put_ref", "copy", "copy_ref", "import"}
+      puts == {"put_tag", "put_index", "put_ref", "copy", "copy_ref", "import", "retag"}
   IN << <<op.kind \in puts /\ ~Tagged(op.optag, op.opobj), o \o "-tag">>,
         <<op.kind \in {"put_digest", "put_refd"} /\ (op.opobj \notin Range(e.untagged) \/ e.has # 1), o \o "-entry">>,
         <<op.kind \in {"put_child", "blob_put"} /\ e.has # 1, o \o "-file">>,
+        <<op.kind = "blob_delete" /\ e.has # 0, o \o "-file-deleted">>,
         <<op.kind = "tag_delete" /\ (op.optag \in DOMAIN cur \/ op.optag \in DOMAIN res), o \o "-tag-deleted">>,
         <<op.kind = "man_delete" /\ (\/ \E t \in DOMAIN cur : cur[t] = op.opobj
                                      \/ \E t \in DOMAIN res : res[t] = op.opobj
@@ -103,7 +104,7 @@ GoalChecks(e, o) ==
           \/ Range(op.norefs) \cap Range(e.refs) # {}
           \/ (op.wantrefs # <<>> /\ op.fbtag \notin DOMAIN cur)
           \/ (op.subj # "" /\ e.refs_err # 0), o \o "-referrers">>,
-        <<op.kind # "blob_put" /\ e.index # "ok", o \o "-index">> >>
+        <<op.kind \notin {"blob_put", "blob_delete"} /\ e.index # "ok", o \o "-index">> >>
 
 \* the directory after the k-th mutating system call (crash state k)
 PSys(e) ==
